@@ -3,7 +3,7 @@ import vlib, gens, trees
 from checklib import Scenario
 
 RULE = ("arbitrary byte strings as file content (uniform bytes, structural-character-heavy, mutated conventional files, NUL and "
-        "8-bit bytes, no trailing newline, very long lines) x 7 delimiter sets (+ exotic ones) x 3 comment sets (+ a blank) x "
+        "8-bit bytes, no trailing newline, very long lines; files of 600 and 800 KiB while the implementation runs with a 256 KiB stack) x 7 delimiter sets (+ exotic ones) x 3 comment sets (+ a blank) x "
         "{default, JOIN_SAME_ENTRIES, PYTHON_STYLE}; after a successful read: every listing, every typed and extended getter "
         "on every listed key, merge with a second random file in both roles, write and read back, and every object queried, merged and written AGAIN after it was written (section names with brackets of their own included); the same contents as main file and drop-ins of layered reads; run under ASan+UBSan and once more under clang MemorySanitizer with a "
         "per-run timeout; the return code must be success or one of the four parse codes (theorem), every sanitizer report, "
@@ -19,6 +19,7 @@ def rfile(rng):
     if r < 0.95: return bytes(rng.choice(b"a=# [\"]") for _ in range(rng.randrange(8000, 20000))) + b"\n"
     return (b"k=" + b"v" * rng.randrange(8180, 8200) + b"\n #c\n") * 2
 
+vlib.IMPL_STACK_KB = 256       # the implementation runs with a 256 KiB native stack: stack use that grows with the input shows at files of half a megabyte
 EXTRA_FLAVOURS = ["msan"]     # clang MemorySanitizer build of the same driver: reads of uninitialised memory
 
 def gen(rng, tier):
@@ -34,6 +35,13 @@ def gen(rng, tier):
                 "write 2", "getall 2", "reread 4 0", "getall 4", "getall 0", "merge 5 0 4", "write 0"]
         obs = [True] + [False] * (len(cmds) - 1)
         out.append(Scenario(cmds, obs, tags=("py" if py else "join" if jn else "default",)))
+    # files far larger than the stack the implementation runs with: many long lines, and one very long line
+    big1 = b"".join(b"key%d=" % i + b"v" * 990 + b"\n" for i in range(600))
+    big2 = b"k=" + b"w" * (3 << 17) + b"\n  " + b"c" * (3 << 17) + b"\n[s]\nj=1\n"
+    for content in (big1, big2):
+        for mode in range(3):
+            out.append(Scenario([gens.parse_cmd(0, b"/d/big.conf", content, b"=", b"#", mode == 1, mode == 2), "groups 0", "keys 0 -", "get 0 string - x6b -", "reread 1 0", "keys 1 -"],
+                                [True, False, False, False, False, False], tags=("big",)))
     # the same arbitrary contents as main file and drop-ins of a layered read (several files per directory, any of
     # them refused by the parser): the failure paths of the directory readers run on the same bytes
     for _ in range(n // 5):
